@@ -245,10 +245,12 @@ class ClassInfo:
         self.lambda_priors = set()   # names of priors registered with a lambda / local function as closure
         self.writers = {}         # attr -> {(method, writer kind)}: who writes it outside __init__
         self.reads = {}           # method -> {attr}: `self.<attr>` loads (all methods, `__init__` included)
+        self.alias_reads = {}     # method -> {attr}: `<param>.<attr>` loads on the method's other parameters
         self.dyn_reads = set()    # methods with a computed read (`getattr(self, <expr>)`, `vars(self)`, `self.__dict__[<expr>]`)
         self.members = set()      # methods, properties and class-level attributes (code, not instance state)
         self.settings_reads = {}  # method -> {settings class}: global settings consulted
         self.settings_stores = set()   # (attr, setting, in_init): `self.<attr> = <expression mentioning a setting>`
+        self.ctor_aliases = set()      # (registered name, expression): parameter / buffer that may share the caller's tensor
 
 
     def own_reads_all(self):
@@ -406,6 +408,9 @@ class Translator:
         for mname, fns in ci.methods.items():
             for fn in fns:
                 self.scan_method(ci, mname, fn)
+        for fn in ci.methods.get("__init__", []):
+            if fn.args.args:
+                self.scan_ctor_aliases(ci, fn)
         if "_clear_cache" in ci.methods:
             self.scan_clear_cache(ci, ci.methods["_clear_cache"][-1])
         if "__getstate__" in ci.methods:
@@ -603,6 +608,20 @@ class Translator:
         augmented assignments, `getattr/hasattr(self, "const")`, `self.__dict__["const"]` / `.get("const")`.  A computed
         name (`getattr(self, expr)`, `vars(self)`, `self.__dict__[expr]`) marks the method as a dynamic reader."""
         reads = ci.reads.setdefault(mname, set())
+        alias = ci.alias_reads.setdefault(mname, set())
+        # local names bound to `self` (`base_module = self`) read like `self`; attribute loads on the method's OTHER
+        # parameters are kept apart (`alias_reads`): closures such as `_lengthscale_param(self, m): return m.lengthscale`
+        # are called with `m is self`
+        selfs = {S} | {t.id for n in ast.walk(fn) if isinstance(n, ast.Assign) and _is_self(n.value, S)
+                       for t in n.targets if isinstance(t, ast.Name)}
+        params = {a.arg for a in fn.args.args[1:] + fn.args.kwonlyargs} - selfs
+
+        def is_s(node):
+            return isinstance(node, ast.Name) and node.id in selfs
+        for n in ast.walk(fn):
+            if isinstance(n, ast.Attribute) and isinstance(n.ctx, ast.Load) and isinstance(n.value, ast.Name) \
+                    and n.value.id in params:
+                alias.add(n.attr)
 
         def mangle(a):
             if a.startswith("__") and not a.endswith("__"):
@@ -610,20 +629,20 @@ class Translator:
             return a
 
         def is_dict(e):
-            return isinstance(e, ast.Attribute) and e.attr == "__dict__" and _is_self(e.value, S)
+            return isinstance(e, ast.Attribute) and e.attr == "__dict__" and is_s(e.value)
         for n in ast.walk(fn):
-            if isinstance(n, ast.Attribute) and _is_self(n.value, S) and isinstance(n.ctx, ast.Load):
+            if isinstance(n, ast.Attribute) and is_s(n.value) and isinstance(n.ctx, ast.Load):
                 reads.add(mangle(n.attr))
-            elif isinstance(n, ast.AugAssign) and isinstance(n.target, ast.Attribute) and _is_self(n.target.value, S):
+            elif isinstance(n, ast.AugAssign) and isinstance(n.target, ast.Attribute) and is_s(n.target.value):
                 reads.add(mangle(n.target.attr))
             elif isinstance(n, ast.Call) and isinstance(n.func, ast.Name) and n.func.id in ("getattr", "hasattr") \
-                    and n.args and _is_self(n.args[0], S):
+                    and n.args and is_s(n.args[0]):
                 if len(n.args) > 1 and isinstance(n.args[1], ast.Constant) and isinstance(n.args[1].value, str):
                     reads.add(n.args[1].value)
                 else:
                     ci.dyn_reads.add(mname)
             elif isinstance(n, ast.Call) and isinstance(n.func, ast.Name) and n.func.id in ("vars", "dir") \
-                    and n.args and _is_self(n.args[0], S):
+                    and n.args and is_s(n.args[0]):
                 ci.dyn_reads.add(mname)
             elif isinstance(n, ast.Call) and isinstance(n.func, ast.Attribute) and n.func.attr in ("__getattr__", "__getattribute__"):
                 ci.dyn_reads.add(mname)        # super().__getattr__(name)
@@ -704,6 +723,87 @@ class Translator:
                     if src and isinstance(n.args[1], ast.Constant):
                         for s_ in src:
                             ci.settings_stores.add((str(n.args[1].value), s_, in_init))
+
+    # ------------------------------------------------------------------ registrations that alias a constructor argument
+    ALIAS_OPS = {"unsqueeze", "squeeze", "view", "reshape", "expand", "expand_as", "transpose", "t", "contiguous", "to",
+                 "detach", "type_as", "float", "double", "half", "permute", "flatten", "view_as", "requires_grad_", "cpu",
+                 "cuda", "data", "T", "mT", "squeeze_", "unsqueeze_"}
+    ALIAS_FUNCS = {"as_tensor", "atleast_1d", "atleast_2d", "Parameter", "broadcast_to", "asarray", "broadcast_all",
+                   "broadcast_tensors"}
+
+    def may_alias(self, e, al):
+        """May the value of expression `e` share storage with one of the (caller-supplied) names `al`?  View-type
+        methods, indexing, `torch.as_tensor`, `nn.Parameter(x)` keep the storage; `.clone()`, arithmetic and every
+        other call produce a new tensor."""
+        if isinstance(e, ast.Name):
+            return e.id in al
+        if isinstance(e, ast.Attribute):
+            return e.attr in self.ALIAS_OPS and self.may_alias(e.value, al)
+        if isinstance(e, ast.Subscript):
+            return self.may_alias(e.value, al)
+        if isinstance(e, ast.IfExp):
+            return self.may_alias(e.body, al) or self.may_alias(e.orelse, al)
+        if isinstance(e, ast.Call):
+            f = e.func
+            if isinstance(f, ast.Attribute) and f.attr in self.ALIAS_OPS:
+                return self.may_alias(f.value, al)
+            name = f.attr if isinstance(f, ast.Attribute) else getattr(f, "id", None)
+            if name in self.ALIAS_FUNCS:
+                return any(self.may_alias(a, al) for a in e.args) or any(self.may_alias(k.value, al) for k in e.keywords)
+            return False
+        if isinstance(e, (ast.Tuple, ast.List)):
+            return any(self.may_alias(x, al) for x in e.elts)
+        return False
+
+    def scan_ctor_aliases(self, ci, fn):
+        """Flow-sensitive (statement order, branches joined) may-alias pass over `__init__`: which names still denote
+        the caller's tensor when they are registered as parameter / buffer."""
+        S = fn.args.args[0].arg
+        start = {a.arg for a in fn.args.args[1:] + fn.args.kwonlyargs}
+
+        def run(stmts, al):
+            for st in stmts:
+                if isinstance(st, (ast.Assign, ast.AnnAssign)) and getattr(st, "value", None) is not None:
+                    a = self.may_alias(st.value, al)
+                    for t in (st.targets if isinstance(st, ast.Assign) else [st.target]):
+                        if isinstance(t, (ast.Tuple, ast.List)):
+                            for e in t.elts:
+                                if isinstance(e, ast.Name):
+                                    (al.add if a else al.discard)(e.id)
+                        elif isinstance(t, ast.Name):
+                            (al.add if a else al.discard)(t.id)
+                        elif isinstance(t, ast.Attribute) and _is_self(t.value, S) and a and \
+                                self.value_kind(ci, fn, st.value) == "param":
+                            ci.ctor_aliases.add((t.attr, ast.unparse(st.value)[:80]))
+                elif isinstance(st, ast.If):
+                    a1, a2 = set(al), set(al)
+                    # `if x is None:` / `if x is not None:` — on the None side `x` is no tensor at all
+                    t_ = st.test
+                    if isinstance(t_, ast.Compare) and isinstance(t_.left, ast.Name) and len(t_.ops) == 1 \
+                            and isinstance(t_.comparators[0], ast.Constant) and t_.comparators[0].value is None:
+                        if isinstance(t_.ops[0], ast.Is):
+                            a1.discard(t_.left.id)
+                        elif isinstance(t_.ops[0], ast.IsNot):
+                            a2.discard(t_.left.id)
+                    run(st.body, a1)
+                    run(st.orelse, a2)
+                    al.clear()
+                    al.update(a1 | a2)
+                elif isinstance(st, (ast.For, ast.While, ast.With, ast.Try)):
+                    for blk in ("body", "orelse", "finalbody"):
+                        run(getattr(st, blk, None) or [], al)
+                    for h in getattr(st, "handlers", []):
+                        run(h.body, al)
+                elif isinstance(st, ast.Expr) and isinstance(st.value, ast.Call):
+                    c = st.value
+                    if isinstance(c.func, ast.Attribute) and _is_self(c.func.value, S) \
+                            and c.func.attr in ("register_buffer", "register_parameter"):
+                        val = _arg(c, 1, "tensor") or _arg(c, 1, "parameter")
+                        nm = _arg(c, 0, "name")
+                        if val is not None and nm is not None and self.may_alias(val, al):
+                            for q in name_pattern(nm, {}):
+                                ci.ctor_aliases.add((q, ast.unparse(val)[:80]))
+        run(fn.body, set(start))
 
     def light_scan(self, key):
         """members and `self.<attr>` reads of a non-Module mix-in class"""
@@ -999,6 +1099,11 @@ class Translator:
             ci.eff_drops = drops
             ci.gp = any(self.pkg.rel(c.file) == "gpytorch/module.py" and c.name == "Module" for c in chain)
             ci.writers = {a: w for a, w in ci.writers.items() if a in ci.mut_attrs}
+            # loads through another parameter (`m.lengthscale` with `m is self` in prior closures) count as reads of the
+            # class when the name is one the class knows (registered / assigned / member of its MRO)
+            known = set(regnames) | set().union(*[c.init_attrs | c.mut_attrs | c.members for c in chain])
+            al = set().union(*[r for m, r in ci.alias_reads.items() if m != "__init__"]) if ci.alias_reads else set()
+            ci.own_reads |= {a for a in al if a in known}
             # read side: own `self.<attr>` loads outside the constructor; which registered patterns cover them
             ci.covers = {(q, a) for c in chain for a in c.own_reads for q in regnames
                          if ("*" in q or "#" in q) and q != "*" and a != q and _match(q, a)}
@@ -1018,7 +1123,7 @@ class Translator:
             allnames |= {q for _, q, _ in ci.regs} | ci.init_attrs | ci.mut_attrs | ci.persisted_writes | ci.memo \
                 | ci.clears | ci.eff_clears | ci.eff_mut | ci.eff_drops | ci.lambda_priors
             allnames |= ci.own_reads | ci.members | ci.dyn_reads | {m for w in ci.writers.values() for m, _ in w} \
-                | {a for a, _, _ in ci.settings_stores}
+                | {a for a, _, _ in ci.settings_stores} | {a for a, _ in ci.ctor_aliases}
         owned = set()
         for k in keys:
             owned |= self.info[k].init_attrs | self.info[k].mut_attrs
@@ -1084,6 +1189,11 @@ class Translator:
         st = sorted({(cid[k], nid[a], sid[s_], ini) for k in keys for a, s_, ini in self.info[k].settings_stores})
         out.append("def settingsStores : List (Nat × Nat × Nat × Bool) := [" +
                    ", ".join(f"({a}, {b}, {c}, {b_(d)})" for a, b, c, d in st) + "]\n")
+        out.append("/-- parameters / buffers registered in `__init__` from an expression that MAY SHARE STORAGE with a constructor\n"
+                   "argument (no `.clone()` on the way; views, indexing, `as_tensor`, `nn.Parameter(x)` keep the storage):\n"
+                   "`(class, registered name)` -/")
+        ca = sorted({(cid[k], nid[a]) for k in keys for a, _ in self.info[k].ctor_aliases})
+        out.append("def ctorArgAliases : List (Nat × Nat) := [" + ", ".join(f"({a}, {b})" for a, b in ca) + "]\n")
         out.append("/-- `self.<attr>` loads in the class's OWN methods other than `__init__` (attribute loads, augmented\n"
                    "assignments, `getattr/hasattr(self, \"c\")`, `self.__dict__[\"c\"]`), indexed by class id -/")
         out.append("def ownReads : List (List Nat) := [\n" + ",\n".join("  " + L(sorted(nid[a] for a in self.info[k].own_reads)) for k in keys) + "]\n")
@@ -1154,10 +1264,11 @@ class Translator:
                 # read side (own methods; the harness unites them over the MRO)
                 "reads": {m: sorted(set(r).union(*[x.reads.get(m, set()) for x in ci.mixins]))
                           for m, r in list(ci.reads.items()) + [(m, set()) for x in ci.mixins for m in x.reads]},
+                "alias_reads": {m: sorted(r) for m, r in ci.alias_reads.items()},
                 "dyn_reads": sorted(ci.dyn_reads), "members": sorted(ci.members),
                 "writers": {a: sorted(w) for a, w in ci.writers.items()},
                 "settings_reads": {m: sorted(r) for m, r in ci.settings_reads.items()},
-                "settings_stores": sorted(ci.settings_stores),
+                "settings_stores": sorted(ci.settings_stores), "ctor_aliases": sorted(ci.ctor_aliases),
             }
         return res
 
